@@ -21,6 +21,8 @@ from opkernels import CRATE_PREFIXES, prim
 from models import ok, err
 
 NMAX = {"quick": 3, "thorough": 4}
+# concrete library names the dispatch kernel is run with: plain, versioned (two suffixes), no extension, foreign extension
+LIBNAMES = ["lib.so", "lib.so.1", "plugin", "dir.d/plugin.dll"]
 
 
 def _v(ex, st, v, depth=6):
@@ -29,6 +31,10 @@ def _v(ex, st, v, depth=6):
         v = ex.read(st, v.cell, v.path)
         n += 1
     return v
+
+
+def _lit(v):
+    return v.data.strip('"') if isinstance(v, Opaque) and v.tag == "strlit" else None
 
 
 def m_library_new(ex, st, callee, args):
@@ -69,8 +75,28 @@ def m_foreign_call(ex, st, callee, args):
             (z3.UGE(k, 2), Adt("ReturnValue", "FFIError", [Opaque("String", "ffi-message")]))]
 
 
+def m_path_identity(ex, st, callee, args):
+    return [(None, args[0])]
+
+
+def m_with_extension(ex, st, callee, args):
+    """Path::with_extension on a literal path and a literal extension (std documentation: replaces what follows the last `.` of
+    the file name, or appends `.ext` when the file name has none / starts with its only dot)"""
+    pth, ext = _lit(_v(ex, st, args[0])), _lit(_v(ex, st, args[1]))
+    if pth is None or ext is None:
+        raise Inconclusive("with_extension on non-literal operands")
+    d, sep, name = pth.rpartition("/")
+    i = name.rfind(".")
+    stem = name if i <= 0 else name[:i]
+    new = stem + ("." + ext if ext else "")
+    return [(None, Opaque("strlit", '"%s"' % (d + sep + new)))]
+
+
 def install(m):
     pre = [(r"^libloading::Library::new::<", m_library_new),
+           (r"^(std::path::)?Path::new::<", m_path_identity),
+           (r"^(std::path::)?Path::with_extension::<", m_with_extension),
+           (r"^<(std::path::)?PathBuf as (Deref|AsRef<.*>)>::(deref|as_ref)$", m_path_identity),
            (r"^libloading::Library::get::<", m_library_get),
            (r"^<libloading::Symbol<.*> as Deref>::deref$", m_symbol_deref),
            (r"^fnptr:foreign-fn$", m_foreign_call)]
@@ -102,9 +128,9 @@ class FfiKernels:
                  ("iargs",): Adt("[]", None, iargs)}
         return vals, self.ex.run(self.call_lib, [Ref(("ctx",)), Ref(("iargs",))], cells=cells)
 
-    def run_plj(self, n):
+    def run_plj(self, n, libname="lib.so"):
         vals = [z3.BitVec("a%d" % i, 32) for i in range(n)]
-        cells = {("lib",): Opaque("strlit", '"lib.so"'), ("fn",): Opaque("strlit", '"fname"'),
+        cells = {("lib",): Opaque("strlit", '"%s"' % libname), ("fn",): Opaque("strlit", '"fname"'),
                  ("args",): Adt("[]", None, [prim("Int", Sc("i32", v)) for v in vals])}
         return vals, self.ex.run(self.plj, [Ref(("lib",)), Ref(("fn",)), Ref(("args",))], cells=cells)
 
@@ -129,10 +155,6 @@ def _solve(cond, qs, label, timeout_ms, seed):
         return "sat"
     qs.undecided.append(label)
     return "unknown"
-
-
-def _lit(v):
-    return v.data.strip('"') if isinstance(v, Opaque) and v.tag == "strlit" else None
 
 
 def check_call_lib(fk, n, profile, qs, timeout_ms, seed):
@@ -182,11 +204,18 @@ def check_call_lib(fk, n, profile, qs, timeout_ms, seed):
 
 def check_plj(fk, n, profile, qs, timeout_ms, seed):
     bad = []
-    vals, outs = fk.run_plj(n)
+    for libname in (LIBNAMES if n <= 1 else LIBNAMES[:1]):
+        bad += check_plj_named(fk, n, libname, profile, qs, timeout_ms, seed)
+    return bad
+
+
+def check_plj_named(fk, n, libname, profile, qs, timeout_ms, seed):
+    bad = []
+    vals, outs = fk.run_plj(n, libname)
     seen_call = False
     for pi, o in enumerate(outs):
         pcz = z3.And(*o.pc) if o.pc else z3.BoolVal(True)
-        lab = "ffi-dispatch[args=%d]/%s:path%d" % (n, profile, pi)
+        lab = "ffi-dispatch[args=%d,lib=%s]/%s:path%d" % (n, libname, profile, pi)
         opens = [e for e in o.effects if e[0] == "dlopen"]
         syms = [e for e in o.effects if e[0] == "dlsym"]
         calls = [e for e in o.effects if e[0] == "foreign-call"]
@@ -208,9 +237,9 @@ def check_plj(fk, n, profile, qs, timeout_ms, seed):
         else:
             seen_call = True
             rv = o.value.fields[0]
-            if len(opens) != 1 or _lit(opens[0][1]) != "lib.so":
-                problem = ("wrong-library", "the library opened is not the one named: %r" % (opens,))
-            elif len(syms) != 1 or not (isinstance(syms[0][1], Adt) and _lit(syms[0][1].fields[0]) == "lib.so"):
+            if len(opens) != 1 or _lit(opens[0][1]) != libname:
+                problem = ("wrong-library", "the library opened is not the one named (`%s`): %r" % (libname, [_lit(e[1]) or e[1] for e in opens]))
+            elif len(syms) != 1 or not (isinstance(syms[0][1], Adt) and _lit(syms[0][1].fields[0]) == libname):
                 problem = ("wrong-symbol-lookup", "the symbol is not looked up in the opened library")
             elif bytes(z3.simplify(b.e).as_long() for b in syms[0][2].fields) != b"fname":
                 problem = ("wrong-symbol-name", "the symbol looked up is not the function named")
